@@ -308,17 +308,17 @@ class Ctx:
         rc = 0
         if unlisted:
             os.makedirs(os.path.join(VERIF, 'replays'), exist_ok=True)
-            seenk = set()
+            seenk = {}
             for i, v in enumerate(unlisted):
-                if v.get('key') in seenk and i > 20:
+                seenk[v.get('key')] = seenk.get(v.get('key'), 0) + 1
+                if seenk[v.get('key')] > 3:
                     continue
-                seenk.add(v.get('key'))
                 rp = os.path.join(VERIF, 'replays', '%s-seed%d-%s-%d.json' % (self.id, self.seed, self.tier, i))
                 json.dump({'property': self.id, 'seed': self.seed, 'tier': self.tier, 'violation': v},
                           open(rp, 'w'), indent=1, default=str)
                 print('VIOLATION property=%s replay=%s' % (self.id, rp))
                 print('  key=%s what=%s' % (v.get('key'), str(v.get('what'))[:300]))
-                if i >= 20:
+                if len(seenk) > 12:
                     break
             rc = 1
         elif self.inconclusive:
